@@ -27,6 +27,20 @@ def grid(tier):
                     out.append({'mode': 'client', 'class': 'deadline', 'transport': 'h2', 'shim': {'cap': 65536, 'rq': 65536, 'wq': 65536, 'pend': 0},
                                 'shape': 'unary', 'server': server, 'client': client, 'req': {'meta': [], 'msgs': [[1]]},
                                 'script': {'init_meta': [], 'msgs': [[2]], 'end': {'ok': True}, 'fail_before': False, 'no_compress': False, 'latency_ms': L}})
+    # a malformed grpc-timeout is ignored: the configured timeouts still apply (header bytes injected below the client API)
+    for raw in (b'5x', b'123456789n', b'soonS', b'', b'1 S', b'-1S', b'1s'):
+        for tsrv in [None, 1000]:
+            for te in [None, 2000]:
+                for L in ([0, 500, 1500, 2500] if tier != 'thorough' else lat):
+                    client = {'send': '', 'accept': [], 'max_dec': -1, 'max_enc': -1, 'raw_timeout': list(raw)}
+                    server = {'send': [], 'accept': [], 'max_dec': -1, 'max_enc': -1}
+                    if te is not None:
+                        client['endpoint_timeout_ms'] = te
+                    if tsrv is not None:
+                        server['timeout_ms'] = tsrv
+                    out.append({'mode': 'client', 'class': 'deadline_malformed_header', 'transport': 'h2', 'shim': {'cap': 65536, 'rq': 65536, 'wq': 65536, 'pend': 0},
+                                'shape': 'unary', 'server': server, 'client': client, 'req': {'meta': [], 'msgs': [[1]]},
+                                'script': {'init_meta': [], 'msgs': [[2]], 'end': {'ok': True}, 'fail_before': False, 'no_compress': False, 'latency_ms': L}})
     return out
 
 
